@@ -102,6 +102,27 @@ pub fn last_number(s: &str) -> String {
     }
 }
 
+/// A user-defined `Header` whose size (12) is no multiple of 8 and whose alignment is 4 (model: HUser12): the generic
+/// public API of multiboot2-common admits it.
+#[derive(Clone, Copy, Debug, PartialEq, Eq)]
+#[repr(C)]
+pub struct U12Header {
+    pub typ: u32,
+    pub size: u32,
+    pub extra: u32,
+}
+
+impl Header for U12Header {
+    fn payload_len(&self) -> usize {
+        assert!(self.size as usize >= core::mem::size_of::<Self>());
+        self.size as usize - core::mem::size_of::<Self>()
+    }
+
+    fn set_size(&mut self, total_size: usize) {
+        self.size = total_size as u32;
+    }
+}
+
 fn c14<H: Header>(ctx: &mut Ctx, a: usize, bytes: &[u8]) {
     let g = Guarded::new(bytes, a, ctx.place_end);
     let r = guard(|| match DynSizedStructure::<H>::ref_from_slice(g.slice()) {
@@ -145,6 +166,7 @@ pub fn run(ctx: &mut Ctx, dom: &str, a: &[Arg]) {
                 1 => c14::<TagHeader>(ctx, al, bytes),
                 2 => c14::<HeaderTagHeader>(ctx, al, bytes),
                 3 => c14::<multiboot2::BootInformationHeader>(ctx, al, bytes),
+                5 => c14::<U12Header>(ctx, al, bytes),
                 _ => c14::<Multiboot2BasicHeader>(ctx, al, bytes),
             }
         }
